@@ -350,6 +350,32 @@ fn check_lookup_helpers(st: &mut Stats, text: &str, ord_syms: Option<Vec<NamedSy
     }
 }
 
+/// An outer fixed point that takes several rounds, whose body contains SEVERAL closed inner fixed
+/// points (one of them under a quantifier that binds a name occurring nowhere free): every round
+/// evaluates fresh copies of the body, the inner values must not be mixed up and the bound name
+/// must not reach the answer.
+pub fn closed_inner_fixed_points_text(k: usize, variant: usize) -> String {
+    let inner: Vec<String> = (0..k)
+        .map(|i| {
+            let lit = ["b", "c", "d", "-b", "b | c"][(i + variant) % 5];
+            if (i + variant) % 2 == 0 { format!("(gfp Z # ({}) & Z)", lit) } else { format!("(lfp Z # ({}) | Z)", lit) }
+        })
+        .collect();
+    let quantified = ["(exists a # gfp Y # a & Y)", "(forall a # lfp Y # a | Y)", "(exists a # lfp Y # (a | Y) & a)"][variant % 3];
+    format!("lfp W # ((c & d & e) | (W & exists c # W) | (exists d # W) | ({} & {}))", quantified, inner.join(" & "))
+}
+
+fn closed_inner_fixed_points(st: &mut Stats) {
+    for k in 1..=8usize {
+        for variant in 0..4usize {
+            let text = closed_inner_fixed_points_text(k, variant);
+            if check_text(st, &text, None, "closed-inner-fixed-points") {
+                st.bump("closed_inner_fixed_points_in_an_iterated_outer_one");
+            }
+        }
+    }
+}
+
 fn compare_lists(st: &mut Stats, text: &str, fv: &[String], vs: &[String], want_free: &[String], order: &[String], case: &dyn Fn() -> Value) {
     // sets must be exact; `vars` lists each name once; `free_vars` must be listed in the same
     // (variable) order as `vars`. Which order the tool gives to unlisted variables is not part of
@@ -470,6 +496,7 @@ pub fn run(ctx: &Ctx) -> (Stats, Spec) {
     long_binders(ctx, &mut st);
     short_formula_long_ordering(&mut st);
     rebinding_then_later_occurrence(&mut st);
+    closed_inner_fixed_points(&mut st);
     // (own thread: deep recursion wants the workers' large stack)
     let deep = util::par_jobs(1, |_| {
         let mut s = Stats::new();
